@@ -294,6 +294,11 @@ Definition run_op1 (ideal : N) (r : rstate) (o : op) : rstate * list obs :=
   | OLNext i n => let '(l, out) := live_next (r_lives r) i n in (set_lives r l, [out])
   | OLRel i => (set_lives r (set_nth i None None (r_lives r)), [])
   | OStat h p => (r, [BStat (st_stat_ok (h_view h s) p)])
+  | OBReplayTo b1 b2 =>
+      let '(h1, stored1) := get_batch r b1 in
+      let '(h2, stored2) := get_batch r b2 in
+      (* the source replays (un-prefixing through its replayers) into the destination batch's Put/Delete *)
+      (set_batch r b2 (h2, fold_left (st_badd (h_view h2 s)) (st_breplay (h_view h1 s) stored1) stored2), [])
   | OInit d => (set_store r (st_upd d st_init s), [])
   end.
 
